@@ -439,6 +439,12 @@ def run_shard(ctx: ShardCtx) -> ShardResult:
                                             rng.randrange(61, 5000) + rng.random()])
                         start = (now - datetime.timedelta(seconds=delta)).replace(microsecond=0)
                         params['start'] = W.isoz(start)
+                        if rng.random() < 0.35:
+                            # a clock just past a Period boundary (which need not lie on a whole second)
+                            durs = [float(p['duration']) for p in definition['periods']]
+                            k = rng.randrange(0, len(durs) + 1)
+                            edge = rng.choice([1, 2, 3, 17]) * total + sum(durs[:k])
+                            now = start + datetime.timedelta(seconds=edge + rng.choice([0.000001, 0.001, 0.05, 0.3, 0.7]))
                     params['depth'] = str(rng.choice([20, 30, 60, 90, 120]))
                 else:
                     now = W.calendar_instants(rng)
